@@ -29,6 +29,27 @@ import (
 
 func init() {
 	stages["svg"] = stageSVG
+	stages["svgbatch"] = stageSVGBatch
+}
+
+// stageSVGBatch runs many "svg" cases in one round trip to the worker (the
+// pipe hand-over per case costs more than the case itself). A hang or crash
+// is then attributed to the batch; the driver re-runs such a batch case by
+// case.
+func stageSVGBatch(raw json.RawMessage) Result {
+	var b struct {
+		Cases []json.RawMessage `json:"cases"`
+	}
+	if err := json.Unmarshal(raw, &b); err != nil {
+		return Result{OK: false, Diff: "harness: bad svgbatch case: " + err.Error()}
+	}
+	out := make([]Result, len(b.Cases))
+	ok := true
+	for i, c := range b.Cases {
+		out[i] = dispatchCase(c)
+		ok = ok && out[i].OK
+	}
+	return Result{OK: ok, Obs: map[string]any{"results": out}}
 }
 
 const nanSentinel = 2000000000
@@ -250,7 +271,6 @@ func runEvyBinary(c *svgCase) (doc []byte, outcome, detail string, res *Result) 
 	var so, se bytes.Buffer
 	cmd.Stdout = &so
 	cmd.Stderr = &se
-	cmd.WaitDelay = time.Second
 	t0 := time.Now()
 	err := cmd.Run()
 	elapsed := time.Since(t0)
@@ -267,7 +287,7 @@ func runEvyBinary(c *svgCase) (doc []byte, outcome, detail string, res *Result) 
 	var ee *exec.ExitError
 	if errors.As(err, &ee) {
 		code = ee.ExitCode()
-	} else if err != nil {
+	} else if err != nil && !errors.Is(err, exec.ErrWaitDelay) {
 		return nil, "", "", &Result{OK: false, Diff: "harness: cannot run evy: " + err.Error()}
 	}
 	detail = fmt.Sprintf("exit %d stderr %q", code, clip(se.String(), 200))
@@ -402,6 +422,12 @@ func compareShapes(c *svgCase, got []flatShape, add func(i int, kind, field stri
 					break
 				}
 				ev := tenth(e.G[j])
+				if e.K == "ellipse" && (nm == "start" || nm == "end") {
+					if !sameArc(tenth(e.G[5]), tenth(e.G[6]), g.Geom["start"], g.Geom["end"]) {
+						add(i, e.K, nm, jsonNum(ev), jsonNum(g.Geom[nm]))
+					}
+					continue
+				}
 				gv, ok := g.Geom[nm]
 				if !ok || !feq(ev, gv) {
 					add(i, e.K, nm, jsonNum(ev), jsonNum(gv))
@@ -478,6 +504,35 @@ func compareGrid(c *svgCase, got []flatShape, lo, hi int, add func(i int, kind, 
 			}
 		}
 	}
+}
+
+// sameArc: the expected start/end angles (degrees) against the observed
+// ones. A full turn is a full turn; otherwise start (mod 360) and the signed
+// extent must agree, in either orientation (the documentation does not say
+// whether angles run clockwise or counter-clockwise).
+func sameArc(es, ee, gs, ge float64) bool {
+	near := func(a, b float64) bool { return math.Abs(a-b) <= 1e-6 }
+	mod := func(a float64) float64 {
+		a = math.Mod(a, 360)
+		if a < 0 {
+			a += 360
+		}
+		if near(a, 360) {
+			a = 0
+		}
+		return a
+	}
+	if math.IsNaN(es) || math.IsNaN(ee) || math.IsNaN(gs) || math.IsNaN(ge) {
+		return math.IsNaN(es) == math.IsNaN(gs) && math.IsNaN(ee) == math.IsNaN(ge)
+	}
+	efull, gfull := math.Abs(ee-es) >= 360-1e-9, math.Abs(ge-gs) >= 360-1e-9
+	if efull || gfull {
+		return efull && gfull
+	}
+	if near(mod(es), mod(gs)) && near(ee-es, ge-gs) {
+		return true
+	}
+	return near(mod(-es), mod(gs)) && near(-(ee-es), ge-gs)
 }
 
 func nDiff(a, b []float64) int {
